@@ -102,6 +102,7 @@ func parseTag(tag string) (*boxSpec, error) {
 			name, val := strings.TrimSpace(kv[0]), strings.TrimSpace(kv[1])
 			if name == "box-sizing" {
 				b.borderBox = val == "border-box"
+				b.paddingBox = val == "padding-box"
 				continue
 			}
 			if strings.HasPrefix(name, "border-") {
@@ -144,6 +145,10 @@ func parseTag(tag string) (*boxSpec, error) {
 				b.padR = d
 			case "height":
 				b.h = d
+			case "min-height":
+				b.minh = d
+			case "max-height":
+				b.maxh = d
 			case "width":
 				b.w = d
 			case "min-width":
